@@ -175,7 +175,11 @@ def run(ctx):
         ('distinct', 1, lambda t: etl.distinct(t, 'x')), ('distinct(count)', 1, lambda t: etl.distinct(t, 'x', count='n')),
         ('conflicts', 1, lambda t: etl.conflicts(t, 'x')), ('duplicates(None)', 1, lambda t: etl.duplicates(t)),
         ('isunique', 1, lambda t: [[etl.isunique(t, 'x'), etl.isunique(t, 'xy')]]), ('duplicates(compound)', 1, lambda t: etl.duplicates(t, ('x', 'xy'))),
-    ], 600 if ctx.thorough() else 240)
+        # the key a later field of the (compound) key the operand is sorted by
+        ('duplicates(xy)', 1, lambda t: etl.duplicates(t, 'xy')), ('unique(xy)', 1, lambda t: etl.unique(t, 'xy')),
+        ('distinct(xy, count)', 1, lambda t: etl.distinct(t, 'xy', count='n')), ('conflicts(xy)', 1, lambda t: etl.conflicts(t, 'xy')),
+        ('unique(x)', 1, lambda t: etl.unique(t, 'x')), ('duplicates(v)', 1, lambda t: etl.duplicates(t, 'v')),
+    ], 900 if ctx.thorough() else 420)
     # ---- the partition survives a sort that spills into more than a thousand chunk files
     for n, bs in (((1100, 1), (2300, 2)) if ctx.thorough() else ((1100, 1),)):
         rows = [[(rng.choice([1, 2, 3, 'a', None]) if i % 5 else 'once-%d' % i), i] for i in range(n)]
